@@ -232,7 +232,28 @@ func c18Prop(c *sim.Case) {
 	nt := false
 	steps := 1 + sim.Pick(c, "nsteps", 5)
 	for i := 0; i < steps; i++ {
-		switch sim.Pick(c, "attack", 5) {
+		switch sim.Pick(c, "attack", 6) {
+		case 5: // a token signed with A's provider key arrives through B's token endpoint: B must verify with ITS key set
+			keyA := A.idp.SignKey
+			B.idp.Push(&sim.Behaviour{Name: "signed-with-other-filters-key", Mutate: func(p *sim.IdP, honest string, cl map[string]any, _ *sim.TokenCall) string {
+				return sim.HonestToken(keyA.With(p.SignKey.Kid, ""), cl)
+			}})
+			sidX, cbX := w.start(B, "mallory")
+			if cbX == "" {
+				B.idp.Next = nil
+				continue
+			}
+			createdBy[sidX] = B
+			nt = true
+			r := w.check(B, cbX, B.cookieName()+"="+sidX)
+			B.idp.Next = nil
+			c.Logf("B's callback answered by a token signed with A's key -> %v", r)
+			if r.IsRedirect() && !strings.Contains(r.Location(), "/auth") {
+				c.Violation("foreign-key-accepted", "filter %s completed a login with an ID token signed by %s's provider key", B.name, A.name)
+			}
+			if r2 := w.check(B, "/app", B.cookieName()+"="+sidX); r2.OK {
+				c.Violation("foreign-key-accepted", "filter %s honours a session whose only ID token was signed by %s's provider key", B.name, A.name)
+			}
 		case 0: // the very same Cookie header
 			judge("A's cookie header sent to B", w.check(B, "/app", A.cookieName()+"="+sidA), "")
 		case 1: // A's session id under B's cookie name
